@@ -468,3 +468,294 @@ Example round_ne_tie_down : Z.of_N (round_ne (2 ^ 53 + 1)) = bits_of_b64 (binary
   /\ round_ne (2 ^ 53 + 1) = round_ne (2 ^ 53) /\ round_ne (2 ^ 53 + 3) = round_ne (2 ^ 53 + 4)
   /\ round_ne (2 ^ 64 - 1) = 4895412794951729152%N /\ round_ne (- 2 ^ 63) = 14114281232179134464%N.
 Proof. vm_compute. repeat split. Qed.
+
+(* ---------- Decimal.round_dec ---------- *)
+Definition radix10 : radix := Build_radix 10 eq_refl.
+
+Definition dscale (num den k : Z) : Z * Z :=
+  if 0 <=? k then (num * 2 ^ k, den) else (num, den * 2 ^ (- k)).
+Definition dq (num den k : Z) : Z := let '(n, d) := dscale num den k in n / d.
+Definition dnum (m10 e10 : Z) : Z := if 0 <=? e10 then m10 * 10 ^ e10 else m10.
+Definition dden (e10 : Z) : Z := if 0 <=? e10 then 1 else 10 ^ (- e10).
+Definition dk1 (num den : Z) : Z :=
+  let k0 := 52 - (Z.log2 num - Z.log2 den) in
+  if dq num den k0 <? 2 ^ 52 then k0 + 1 else if 2 ^ 53 <=? dq num den k0 then k0 - 1 else k0.
+
+Lemma round_dec_pos_unfold m10 e10 :
+  m10 <> 0 ->
+  round_dec_pos m10 e10 =
+  let num := dnum m10 e10 in let den := dden e10 in
+  let k := Z.min (dk1 num den) 1074 in
+  let '(n, d) := dscale num den k in pack_pos (rne_q n d) k.
+Proof.
+  intros H. unfold round_dec_pos. replace (m10 =? 0) with false by lia. reflexivity.
+Qed.
+
+Lemma ndigits_fuel_spec fuel : forall m,
+  0 < m < 2 ^ Z.of_nat fuel ->
+  1 <= ndigits_fuel fuel m /\ 10 ^ (ndigits_fuel fuel m - 1) <= m < 10 ^ ndigits_fuel fuel m.
+Proof.
+  induction fuel as [|f IH]; intros m Hm.
+  - change (2 ^ Z.of_nat 0) with 1 in Hm. lia.
+  - cbn [ndigits_fuel]. destruct (Z.ltb_spec m 10) as [Hlt|Hge].
+    + change (10 ^ (1 - 1)) with 1. change (10 ^ 1) with 10. lia.
+    + assert (Hm' : 0 < m / 10 < 2 ^ Z.of_nat f).
+      { rewrite Nat2Z.inj_succ, Z.pow_succ_r in Hm by lia. lia. }
+      destruct (IH _ Hm') as [H1 [H2 H3]].
+      set (nd := ndigits_fuel f (m / 10)) in *. clearbody nd.
+      replace (1 + nd - 1) with (Z.succ (nd - 1)) by lia.
+      replace (1 + nd) with (Z.succ nd) by lia.
+      rewrite !Z.pow_succ_r by lia. lia.
+Qed.
+
+Lemma ndigits_spec m : 0 < m -> 1 <= ndigits m /\ 10 ^ (ndigits m - 1) <= m < 10 ^ ndigits m.
+Proof.
+  intros Hm. unfold ndigits. apply ndigits_fuel_spec.
+  rewrite Nat2Z.inj_succ, Z2Nat.id by apply Z.log2_nonneg.
+  pose proof (Z.log2_spec m Hm). lia.
+Qed.
+
+Lemma dscale_spec num den k :
+  0 < num -> 0 < den ->
+  0 < fst (dscale num den k) /\ 0 < snd (dscale num den k) /\
+  (IZR (fst (dscale num den k)) / IZR (snd (dscale num den k)) = IZR num / IZR den * bpow radix2 k)%R.
+Proof.
+  intros Hn Hd. unfold dscale.
+  assert (Hd' : (IZR den <> 0)%R) by (apply IZR_neq; lia).
+  destruct (Z.leb_spec 0 k) as [Hk|Hk]; cbn [fst snd].
+  - assert (0 < 2 ^ k) by (apply Z.pow_pos_nonneg; lia).
+    split; [nia|split; [lia|]]. rewrite mult_IZR, IZR_pow2 by lia. field. exact Hd'.
+  - assert (0 < 2 ^ (- k)) by (apply Z.pow_pos_nonneg; lia).
+    split; [lia|split; [nia|]]. rewrite mult_IZR, IZR_pow2 by lia.
+    replace k with (- (- k)) at 2 by lia. rewrite (bpow_opp radix2 (- k)). field.
+    split; [apply Rgt_not_eq; apply bpow_gt_0|exact Hd'].
+Qed.
+
+Lemma log2_bpow n : 0 < n -> (bpow radix2 (Z.log2 n) <= IZR n < bpow radix2 (Z.log2 n + 1))%R.
+Proof.
+  intros Hn. pose proof (Z.log2_spec n Hn) as [H1 H2]. pose proof (Z.log2_nonneg n).
+  rewrite <- !IZR_pow2 by lia. split; [apply IZR_le; exact H1|apply IZR_lt; exact H2].
+Qed.
+
+(* the quotient lies strictly between 2^(l-1) and 2^(l+1), l = log2 num - log2 den *)
+Lemma ratio_bounds num den :
+  0 < num -> 0 < den ->
+  let l := Z.log2 num - Z.log2 den in
+  (bpow radix2 (l - 1) < IZR num / IZR den < bpow radix2 (l + 1))%R.
+Proof.
+  intros Hn Hd l.
+  pose proof (log2_bpow num Hn) as [N1 N2]. pose proof (log2_bpow den Hd) as [D1 D2].
+  assert (HD : (0 < IZR den)%R) by (apply IZR_lt; lia).
+  replace (Z.log2 num) with ((l - 1) + (Z.log2 den + 1)) in N1 by (unfold l; lia).
+  replace (Z.log2 num + 1) with ((l + 1) + Z.log2 den) in N2 by (unfold l; lia).
+  rewrite bpow_plus in N1, N2.
+  pose proof (bpow_gt_0 radix2 (l - 1)) as P1. pose proof (bpow_gt_0 radix2 (l + 1)) as P2.
+  split.
+  - apply Rmult_lt_reg_r with (IZR den); [exact HD|]. unfold Rdiv. rewrite Rmult_assoc, Rinv_l, Rmult_1_r by lra.
+    apply Rlt_le_trans with (bpow radix2 (l - 1) * bpow radix2 (Z.log2 den + 1))%R; [|exact N1].
+    apply Rmult_lt_compat_l; assumption.
+  - apply Rmult_lt_reg_r with (IZR den); [exact HD|]. unfold Rdiv. rewrite Rmult_assoc, Rinv_l, Rmult_1_r by lra.
+    apply Rlt_le_trans with (1 := N2). apply Rmult_le_compat_l; [lra|exact D1].
+Qed.
+
+Lemma dq_floor num den k :
+  0 < num -> 0 < den -> dq num den k = Zfloor (IZR num / IZR den * bpow radix2 k).
+Proof.
+  intros Hn Hd. destruct (dscale_spec num den k Hn Hd) as [H1 [H2 H3]].
+  rewrite <- H3. unfold dq. destruct (dscale num den k) as [n d]; cbn [fst snd] in *.
+  rewrite Zfloor_div by lia. reflexivity.
+Qed.
+
+Lemma dk1_spec num den :
+  0 < num -> 0 < den ->
+  (bpow radix2 52 <= IZR num / IZR den * bpow radix2 (dk1 num den) < bpow radix2 53)%R.
+Proof.
+  intros Hn Hd. unfold dk1. rewrite (dq_floor num den _ Hn Hd).
+  pose proof (ratio_bounds num den Hn Hd) as [B1 B2]. cbv zeta in B1, B2.
+  set (l := Z.log2 num - Z.log2 den) in *. set (x := (IZR num / IZR den)%R) in *.
+  set (k0 := 52 - l).
+  assert (R0 : (bpow radix2 51 < x * bpow radix2 k0 < bpow radix2 53)%R).
+  { replace 51 with ((l - 1) + k0) by (unfold k0; lia). replace 53 with ((l + 1) + k0) by (unfold k0; lia).
+    rewrite (bpow_plus radix2 (l - 1) k0), (bpow_plus radix2 (l + 1) k0). split; apply Rmult_lt_compat_r; try apply bpow_gt_0; assumption. }
+  set (y := (x * bpow radix2 k0)%R) in *.
+  pose proof (Zfloor_lb y) as F1. pose proof (Zfloor_ub y) as F2.
+  change (2 ^ 52) with P52. change (2 ^ 53) with P53.
+  destruct (Z.ltb_spec (Zfloor y) P52) as [Hlt|Hge].
+  - replace (x * bpow radix2 (k0 + 1))%R with (y * 2)%R
+      by (unfold y; rewrite bpow_plus; change (bpow radix2 1) with 2%R; ring).
+    assert (y < bpow radix2 52)%R.
+    { rewrite bpow52. fold P52. apply Rlt_le_trans with (1 := F2). rewrite <- plus_IZR. apply IZR_le. lia. }
+    assert (E53 : bpow radix2 53 = (bpow radix2 52 * 2)%R) by (change 53 with (52 + 1); rewrite bpow_plus; reflexivity).
+    assert (E52 : bpow radix2 52 = (bpow radix2 51 * 2)%R) by (change 52 with (51 + 1); rewrite bpow_plus; reflexivity).
+    lra.
+  - destruct (Z.leb_spec P53 (Zfloor y)) as [Hbig|Hok].
+    + exfalso. apply IZR_le in Hbig. change (IZR P53) with (bpow radix2 53) in Hbig. lra.
+    + fold y. split; [|apply R0]. apply IZR_le in Hge. change (IZR P52) with (bpow radix2 52) in Hge. lra.
+Qed.
+
+Lemma div_ge_inv n d c : 0 < d -> (IZR c <= IZR n / IZR d)%R -> c * d <= n.
+Proof.
+  intros Hd H. assert (Hd' : (0 < IZR d)%R) by (apply IZR_lt; lia).
+  apply le_IZR. rewrite mult_IZR.
+  apply Rmult_le_compat_r with (r := IZR d) in H; [|lra].
+  unfold Rdiv in H. rewrite Rmult_assoc, Rinv_l, Rmult_1_r in H by lra. exact H.
+Qed.
+Lemma div_lt_inv n d c : 0 < d -> (IZR n / IZR d < IZR c)%R -> n < c * d.
+Proof.
+  intros Hd H. assert (Hd' : (0 < IZR d)%R) by (apply IZR_lt; lia).
+  apply lt_IZR. rewrite mult_IZR.
+  apply Rmult_lt_compat_r with (r := IZR d) in H; [|lra].
+  unfold Rdiv in H. rewrite Rmult_assoc, Rinv_l, Rmult_1_r in H by lra. exact H.
+Qed.
+
+Lemma IZR_pow10 e : 0 <= e -> IZR (10 ^ e) = bpow radix10 e.
+Proof. intros H. rewrite <- IZR_Zpower by exact H. reflexivity. Qed.
+
+Lemma dvalue m10 e10 :
+  0 < m10 ->
+  0 < dnum m10 e10 /\ 0 < dden e10 /\
+  F2R (Float radix10 m10 e10) = (IZR (dnum m10 e10) / IZR (dden e10))%R.
+Proof.
+  intros Hm. unfold dnum, dden, F2R; cbn [Fnum Fexp].
+  destruct (Z.leb_spec 0 e10) as [He|He].
+  - assert (0 < 10 ^ e10) by (apply Z.pow_pos_nonneg; lia).
+    split; [nia|split; [lia|]]. rewrite mult_IZR, IZR_pow10 by lia. unfold Rdiv. rewrite Rinv_1. ring.
+  - assert (0 < 10 ^ (- e10)) by (apply Z.pow_pos_nonneg; lia).
+    split; [lia|split; [lia|]]. rewrite IZR_pow10 by lia.
+    replace e10 with (- (- e10)) at 1 by lia. rewrite (bpow_opp radix10 (- e10)). reflexivity.
+Qed.
+
+Lemma round_dec_pos_is_rounding s m10 e10 :
+  0 < m10 -> is_rounding s (F2R (Float radix10 m10 e10)) (sgn s + round_dec_pos m10 e10).
+Proof.
+  intros Hm. rewrite round_dec_pos_unfold by lia. cbv zeta.
+  destruct (dvalue m10 e10 Hm) as [Hn [Hd Hx]]. rewrite Hx.
+  set (num := dnum m10 e10) in *. set (den := dden e10) in *. clearbody num den.
+  pose proof (dk1_spec num den Hn Hd) as [K1 K2].
+  set (k1 := dk1 num den) in *. clearbody k1.
+  set (k := Z.min k1 1074).
+  destruct (dscale_spec num den k Hn Hd) as [S1 [S2 S3]].
+  destruct (dscale num den k) as [n d]. cbn [fst snd] in *.
+  set (x := (IZR num / IZR den)%R) in *.
+  apply (is_rounding_pack s _ _ n d k); try assumption; try reflexivity; [lia| |].
+  - destruct (Z.le_gt_cases k1 1074) as [Hle|Hgt].
+    + left. replace k with k1 in S3 by lia. rewrite <- S3 in K1, K2.
+      split; [apply div_ge_inv|apply div_lt_inv]; assumption.
+    + right. split; [lia|]. apply div_lt_inv; [lia|]. rewrite S3. change (IZR (2 ^ 52)) with (bpow radix2 52).
+      replace k with (k1 + (k - k1)) by lia. rewrite bpow_plus, <- Rmult_assoc.
+      apply Rlt_le_trans with (bpow radix2 53 * bpow radix2 (k - k1))%R.
+      * apply Rmult_lt_compat_r; [apply bpow_gt_0|exact K2].
+      * rewrite <- bpow_plus. apply bpow_le. lia.
+  - rewrite S3, Rmult_assoc, <- bpow_plus. replace (k + - k) with 0 by lia. cbn [bpow]. ring.
+Qed.
+
+Lemma fexp64_valid : Valid_exp fexp64.
+Proof. apply FLT_exp_valid. reflexivity. Qed.
+
+Lemma huge_rounds_to_inf x : (bpow radix10 400 <= x)%R -> (bpow radix2 1024 <= rndNE x)%R.
+Proof.
+  intros H. apply round_ge_generic; [apply fexp64_valid|apply valid_rnd_N| |].
+  - apply generic_format_bpow. unfold FLT_exp. lia.
+  - apply Rle_trans with (2 := H). change (bpow radix2 1024) with (IZR (2 ^ 1024)).
+    change (bpow radix10 400) with (IZR (10 ^ 400)). apply IZR_le. apply Z.leb_le. vm_compute. reflexivity.
+Qed.
+
+Lemma tiny_rounds_to_zero x : (0 <= x < bpow radix10 (-401))%R -> rndNE x = 0%R.
+Proof.
+  intros [H0 H]. apply Rle_antisym.
+  - rewrite <- (round_N_small_pos radix2 fexp64 (fun z => negb (Z.even z)) (bpow radix2 (-1076)) (-1075)).
+    + apply round_le; [apply fexp64_valid|apply valid_rnd_N|].
+      apply Rle_trans with (1 := Rlt_le _ _ H).
+      change (-401) with (- (401)). change (-1076) with (- (1076)). rewrite !bpow_opp.
+      apply Rinv_le_contravar; [apply bpow_gt_0|].
+      change (bpow radix2 1076) with (IZR (2 ^ 1076)). change (bpow radix10 401) with (IZR (10 ^ 401)).
+      apply IZR_le. apply Z.leb_le. vm_compute. reflexivity.
+    + split; [apply Rle_refl|apply bpow_lt; lia].
+    + reflexivity.
+  - apply round_ge_generic; [apply fexp64_valid|apply valid_rnd_N|apply generic_format_0|exact H0].
+Qed.
+
+(* Statement 2, master form: for every sign, decimal mantissa m10 >= 0 and decimal exponent e10, the pattern computed by the
+   decimal reader denotes the binary64 round-to-nearest-even of +-m10 * 10^e10, and is the infinity of that sign exactly
+   when that rounding (taken with unbounded exponent range) reaches 2^1024 *)
+Theorem round_dec_is_rounding neg m10 e10 :
+  0 <= m10 -> is_rounding neg (F2R (Float radix10 m10 e10)) (Z.of_N (round_dec neg m10 e10)).
+Proof.
+  intros Hm. unfold round_dec.
+  assert (Hmag : forall mag, 0 <= mag -> Z.of_N (Z.to_N (if neg then 2 ^ 63 + mag else mag)) = sgn neg + mag).
+  { intros mag Hmag. unfold sgn. change (2 ^ 63) with 9223372036854775808. destruct neg; lia. }
+  destruct (Z.eqb_spec m10 0) as [->|Hnz].
+  - rewrite Hmag by lia. rewrite Z.add_0_r. apply is_rounding_zero. rewrite F2R_0. apply round_0. apply valid_rnd_N.
+  - assert (Hpos : 0 < m10) by lia.
+    destruct (ndigits_spec m10 Hpos) as [N1 [N2 N3]]. set (nd := ndigits m10) in *. clearbody nd.
+    assert (Hx : (bpow radix10 (nd - 1 + e10) <= F2R (Float radix10 m10 e10) < bpow radix10 (nd + e10))%R).
+    { unfold F2R; cbn [Fnum Fexp]. rewrite (bpow_plus radix10 (nd - 1) e10), (bpow_plus radix10 nd e10), <- (IZR_pow10 (nd - 1)), <- (IZR_pow10 nd) by lia.
+      split; [apply Rmult_le_compat_r; [apply bpow_ge_0|apply IZR_le; exact N2]
+             |apply Rmult_lt_compat_r; [apply bpow_gt_0|apply IZR_lt; exact N3]]. }
+    destruct (Z.ltb_spec 400 (e10 + nd)) as [Hbig|Hnb].
+    + rewrite Hmag by (change (2 ^ 52) with P52; rewrite P52_eq; lia).
+      change (2 ^ 52) with P52. apply is_rounding_inf. apply huge_rounds_to_inf.
+      apply Rle_trans with (2 := proj1 Hx). apply bpow_le. lia.
+    + destruct (Z.ltb_spec (e10 + nd) (-400)) as [Hsmall|Hns].
+      * rewrite Hmag by lia. rewrite Z.add_0_r. apply is_rounding_zero. apply tiny_rounds_to_zero.
+        split.
+        -- apply Rle_trans with (2 := proj1 Hx). apply bpow_ge_0.
+        -- apply Rlt_le_trans with (1 := proj2 Hx). apply bpow_le. lia.
+      * pose proof (round_dec_pos_is_rounding neg m10 e10 Hpos) as H.
+        assert (H0 : 0 <= round_dec_pos m10 e10).
+        { clear H.
+          rewrite round_dec_pos_unfold by lia. cbv zeta.
+          destruct (dvalue m10 e10 Hpos) as [Hn [Hd _]].
+          destruct (dscale_spec (dnum m10 e10) (dden e10) (Z.min (dk1 (dnum m10 e10) (dden e10)) 1074) Hn Hd) as [S1 [S2 _]].
+          destruct (dscale _ _ _) as [n d]. cbn [fst snd] in *.
+          assert (0 <= rne_q n d) by (apply rne_q_ge; lia).
+          unfold pack_pos. change (2 ^ 52) with P52. change (2 ^ 53) with P53.
+          pose proof P52_eq. pose proof P53_eq.
+          destruct (_ =? P53); destruct (_ <? P52); try destruct (2047 <=? _); lia. }
+        rewrite Hmag by exact H0. exact H.
+Qed.
+
+(* the same, spelled out (the shape of Flocq's binary_normalize_correct / Bdiv_correct) *)
+Theorem round_dec_is_nearest_even neg m10 e10 :
+  0 <= m10 ->
+  let x := F2R (Float radix10 (cond_Zopp neg m10) e10) in
+  let r := round radix2 (FLT_exp (-1074) 53) ZnearestE x in
+  let f := b64_of_bits (Z.of_N (round_dec neg m10 e10)) in
+  if Rlt_bool (Rabs r) (bpow radix2 1024)
+  then B2R 53 1024 f = r /\ is_finite 53 1024 f = true /\ Bsign 53 1024 f = neg
+  else f = B754_infinity 53 1024 neg.
+Proof.
+  intros Hm x r f. destruct (round_dec_is_rounding neg m10 e10 Hm) as [_ H].
+  unfold r, x. rewrite F2R_cond_Zopp. exact H.
+Qed.
+
+(* Statement 2 for non-negative decimal exponents: +-m10 * 10^e10 is an integer, and the reader returns exactly what Flocq's
+   binary_normalize (mode_NE) makes of that integer -- including the overflow to the infinities, for every m10 and e10 *)
+Theorem round_dec_is_flocq_binary_normalize neg m10 e10 :
+  0 <= m10 -> 0 <= e10 ->
+  Z.of_N (round_dec neg m10 e10) =
+  bits_of_b64 (binary_normalize 53 1024 eq_refl eq_refl mode_NE (cond_Zopp neg m10 * 10 ^ e10) 0 neg).
+Proof.
+  intros Hm He. destruct (Z.eq_dec m10 0) as [->|Hnz].
+  - replace (cond_Zopp neg 0 * 10 ^ e10) with 0 by (destruct neg; cbn [cond_Zopp]; lia).
+    destruct neg; reflexivity.
+  - assert (Hp : 0 < 10 ^ e10) by (apply Z.pow_pos_nonneg; lia).
+    set (z := cond_Zopp neg m10 * 10 ^ e10).
+    assert (Hs : (z <? 0) = neg) by (unfold z; destruct neg; cbn [cond_Zopp]; nia).
+    symmetry. apply (normalize_of_is_rounding z 0 neg (F2R (Float radix10 m10 e10))).
+    + unfold z; destruct neg; cbn [cond_Zopp]; nia.
+    + rewrite Hs. unfold z, F2R; cbn [Fnum Fexp]. rewrite mult_IZR, IZR_pow10 by lia. cbn [bpow].
+      destruct neg; cbn [cond_Zopp cond_Ropp]; rewrite ?opp_IZR; ring.
+    + rewrite Hs. apply round_dec_is_rounding. exact Hm.
+Qed.
+
+Example round_dec_examples :
+  round_dec false 1 0 = 4607182418800017408%N (* 1.0 *) /\
+  round_dec true 0 0 = 9223372036854775808%N (* -0.0 *) /\
+  round_dec false 1 (-1) = 4591870180066957722%N (* 0.1 = 0x3FB999999999999A *) /\
+  round_dec false 9007199254740993 0 = 4845873199050653696%N (* 2^53+1 ties to even 2^53 *) /\
+  round_dec false 17976931348623157 292 = 9218868437227405311%N (* f64::MAX *) /\
+  round_dec false 2 308 = 9218868437227405312%N (* overflow: +inf *) /\
+  round_dec false 49406564584124654 (-340) = 1%N (* 4.94e-324: the smallest subnormal *) /\
+  round_dec false 2 (-324) = 0%N (* below half of it: 0.0 *).
+Proof. vm_compute. repeat split. Qed.
